@@ -169,6 +169,10 @@ def _isolated_replay(g, stem, vals, timeout=600):
     return res
 
 
+_REPLAY_CAP = 10          # replays per group: each runs the real code in a forked child; hundreds of refuted obligations of one broken function need not each pay for it
+_replay_budget = {}
+
+
 def _finish_record(rec, r, model, backend, dt, g):
     rec['backend'] = backend
     rec['seconds'] = round(dt, 4)
@@ -178,7 +182,11 @@ def _finish_record(rec, r, model, backend, dt, g):
         elif r == 'sat':
             rec['result'] = 'refuted'
             rec['model'] = {k: (str(v) if not isinstance(v, bool) else v) for k, v in model.items() if not k.startswith('app_')}
-            if g.replay is not None:
+            if g.replay is not None and _replay_budget.get(g.name, 0) >= _REPLAY_CAP:
+                rec['replay'] = {'reproduced': False, 'skipped': True,
+                                 'text': 'replay not run: %d refuted obligations of this group were already replayed on the real code (see those)' % _REPLAY_CAP}
+            elif g.replay is not None:
+                _replay_budget[g.name] = _replay_budget.get(g.name, 0) + 1
                 try:
                     from fractions import Fraction
                     vals = {k: (float(Fraction(v)) if not isinstance(v, bool) else v) for k, v in rec['model'].items()}
@@ -207,7 +215,11 @@ def _ob_record(ob, g):
            'n_assumptions': len(ob.pc)}
     if ob.model is not None and ob.result == 'refuted':
         rec['model'] = {k: (str(v) if not isinstance(v, bool) else v) for k, v in ob.model.items() if not k.startswith('app_')}
-        if g.replay is not None:
+        if g.replay is not None and _replay_budget.get(g.name, 0) >= _REPLAY_CAP:
+            rec['replay'] = {'reproduced': False, 'skipped': True,
+                             'text': 'replay not run: %d refuted obligations of this group were already replayed on the real code (see those)' % _REPLAY_CAP}
+        elif g.replay is not None:
+            _replay_budget[g.name] = _replay_budget.get(g.name, 0) + 1
             try:
                 from fractions import Fraction
                 vals = {k: (float(Fraction(v)) if not isinstance(v, bool) else v) for k, v in rec['model'].items()}
